@@ -533,7 +533,7 @@ func (r *FnRun) loadTypedNoAssume(t types.Type, path string, rd func(path string
 		// whatever a pointer or channel in memory refers to was allocated
 		// before now (first mention wins: at function entry that is top0)
 		switch under(t).(type) {
-		case *types.Pointer, *types.Chan:
+		case *types.Pointer, *types.Chan, *types.Interface:
 			if tm.Sort == SInt && !r.cur.ranged["sb:"+tm.S] {
 				r.cur.ranged["sb:"+tm.S] = true
 				r.assume(Le(tm, r.cur.top))
@@ -797,6 +797,20 @@ func (r *FnRun) evalCall(x SCall, env *specEnv) Val {
 			top = env.old.top
 		}
 		return Gt(t, top)
+	case "born":
+		// born(x): the local variable x has come into existence on this path
+		// (a clause about a local that an early return never reached would
+		// otherwise have to hold for an arbitrary value)
+		id, ok := x.Args[0].(SIdent)
+		if !ok || env.fr == nil {
+			sfail("born() takes the name of a local variable")
+		}
+		for v := range env.fr.vals {
+			if a, ok := v.(*ssa.Alloc); ok && a.Comment == id.Name {
+				return TTrue
+			}
+		}
+		return TFalse
 	case "base":
 		// identity of the backing array of a slice (0 for a nil slice)
 		v := r.evalSpec(x.Args[0], env)
